@@ -18,7 +18,7 @@ Definition untime_ev s te : option (bev A) :=
 Lemma core_tstep c s te : reset_every_item c = false ->
   core (tstep c s te) = match untime_ev s te with Some e => bstep (tc c) (core s) e | None => core s end.
 Proof.
-  intros R. destruct te as [dt|[it|ok|ok| |ok|it]]; cbn [tstep untime_ev]; try reflexivity.
+  intros R. destruct te as [dt|[it|ok|ok| |ok|it|sk]]; cbn [tstep untime_ev]; try reflexivity.
   - cbn [bstep]. destruct (_ <? qcap (tc c)); reflexivity.
   - cbn [bstep]. rewrite R, orb_false_r. destruct (blocked (core s)); [reflexivity|].
     destruct (pc (core s)); [|reflexivity]. destruct (queue (core s)) as [|it q]; [reflexivity|].
@@ -29,6 +29,8 @@ Proof.
   - cbn [bstep]. destruct (blocked (core s)); [reflexivity|]. destruct (pc (core s)); [|reflexivity].
     destruct (t_chan (tm (core s))); [|reflexivity]. destruct (fixed_S28 (tc c) && (cur (core s) =? 0)); [reflexivity|].
     destruct ok; [reflexivity|]. destruct (fixed_S2 (tc c)); reflexivity.
+  - cbn [bstep]. destruct (blocked (core s)); [reflexivity|]. destruct (pc (core s)); [|reflexivity].
+    destruct (queue (core s)); [|reflexivity]. destruct (fixed_S35 (tc c) && (0 <? cur (core s)) && sk); reflexivity.
 Qed.
 
 Lemma brun_snoc' (bc : bcfg) (es : list (bev A)) e : brun bc (es ++ [e]) = bstep bc (brun bc es) e.
@@ -78,7 +80,7 @@ Proof.
   destruct IT as (B & _ & _). specialize (IC B).
   unfold disc, times_ok, age_anchor in *.
   pose proof (conj (conj DL DA) TO) as Same.
-  destruct te as [dt|[it|ok|ok| |ok|it]]; cbn [tstep].
+  destruct te as [dt|[it|ok|ok| |ok|it|sk]]; cbn [tstep].
   - (* Tick *) cbn [core ti now twhen ptimes rearm]. split; [split; [exact DL|]|].
     + intros NE. destruct (DA NE) as [[Ha Hw]|Hc]; [left; split; [exact Ha|]|right; exact Hc].
       rewrite Hw. destruct (rearm (ti s)); [reflexivity|].
@@ -131,6 +133,9 @@ Proof.
     + rewrite F. cbn [core ti pend tm now twhen ptimes rearm t_reset t_active].
       split; [split; [exact DL|]|exact TO]. intros _. left. split; reflexivity.
   - (* Reject *) cbn [core ti pend tm]. exact Same.
+  - (* StopCommit *) rewrite B. destruct (pc (core s)) eqn:PC; [|exact Same]. destruct (queue (core s)) eqn:Q; [|exact Same].
+    destruct (fixed_S35 (tc c) && (0 <? cur (core s)) && sk); [|exact Same].
+    cbn [core ti pend ptimes]. split; [split; [reflexivity|congruence]|]. intros t [].
 Qed.
 
 Lemma tinv_init c : tinv c (tinit : tbst A).
@@ -173,7 +178,7 @@ Proof.
   destruct IT as (B & _ & _). specialize (IC B).
   unfold timely_st in TS. apply andb_true_iff in TS. destruct TS as [TS1 _].
   unfold fired_ok, age_anchor in *.
-  destruct te as [dt|[it|ok|ok| |ok|it]]; cbn [tstep].
+  destruct te as [dt|[it|ok|ok| |ok|it|sk]]; cbn [tstep].
   - cbn [core ti now fired_at ptimes rearm]. intros C. destruct (FO C) as [H1 H2]. split; [lia|].
     intros NE. specialize (H2 NE). destruct (rearm (ti s)); [exact H2|].
     pose proof (len_nil_iff _ _ DL NE) as TN. destruct (ptimes (ti s)); [congruence|exact H2].
@@ -210,6 +215,9 @@ Proof.
     destruct ok; [cbn [core tm t_recv t_chan]; discriminate|].
     rewrite F. cbn [core tm t_reset t_recv t_chan]. discriminate.
   - cbn [core ti pend tm]. exact FO.
+  - rewrite B. destruct (pc (core s)) eqn:PC; [|exact FO]. destruct (queue (core s)) eqn:Q; [|exact FO].
+    destruct (fixed_S35 (tc c) && (0 <? cur (core s)) && sk); [|exact FO].
+    cbn [core ti pend tm now fired_at]. intros C. destruct (FO C) as [H1 _]. split; [exact H1|congruence].
 Qed.
 
 Lemma timely_bound_from c lf lw tes : reset_every_item c = false -> fixed_S2 (tc c) = true ->
@@ -263,8 +271,8 @@ End TimedLemmas.
 
 (* ---- witnesses ---- *)
 (* a trickle: one operation every 4 ticks, max_age 10, batch size 100; the runtime and the worker are prompt (lf = lw = 1) *)
-Definition code_cfg (age : N) : tcfg := mk_tcfg (mk_bcfg 10 100 true true) age false.
-Definition every_item_cfg (age : N) : tcfg := mk_tcfg (mk_bcfg 10 100 true true) age true.
+Definition code_cfg (age : N) : tcfg := mk_tcfg (mk_bcfg 10 100 true true true) age false.
+Definition every_item_cfg (age : N) : tcfg := mk_tcfg (mk_bcfg 10 100 true true true) age true.
 
 Definition trickle3 : list (cev N) :=
   [Ev (Enq 1); Ev (Take true); Tick 4; Ev (Enq 2); Ev (Take true); Tick 4; Ev (Enq 3); Ev (Take true); Tick 2;
